@@ -35,7 +35,7 @@ def lib(auto=False):
     return M, s
 
 
-LENS = [0, 1, 2, 3, 4, 252, 253, 254, 255, 256, 257, 1000, 65540]
+LENS = [0, 1, 2, 3, 4, 252, 253, 254, 255, 256, 257, 1000, 5000]
 # symbolic lengths: n = 4q + r, r fixed (it decides the padding), q symbolic within the framing class
 SYM_LENS = [('short', r) for r in range(4)] + [('long', r) for r in range(4)]
 
@@ -84,8 +84,22 @@ def gen(w, t, path, sh, depth=0):
         b = w.bytes(path, n)
         if t == 'string':
             if not w.symbolic:
-                b = bytes(x & 0x7F for x in b)
-            val = b.decode()
+                # natively: valid UTF-8 text with 1-, 2-, 3- and 4-byte characters (character count != byte count), about n bytes
+                pal = 'az09 _-\u00fc\u00df\u0416\u20ac\u4e2d\U0001F600'
+                txt, used = [], 0
+                for x in b:
+                    ch = pal[x % len(pal)]
+                    k = len(ch.encode())
+                    if used + k > n:
+                        ch, k = 'x', 1
+                        if used + k > n:
+                            break
+                    txt.append(ch)
+                    used += k
+                val = ''.join(txt) + 'x' * (n - used)
+                b = val.encode()
+            else:
+                val = b.decode()
         else:
             val = b
         return val, val, ST.frame(w, w.bytes_seq(b), n)
@@ -240,7 +254,7 @@ def _label(c):
             fuc=[G + 'TlSchemas.serialize', G + 'TlSchemas.serialize_field', G + 'TlSchemas.deserialize', G + 'TlSchemas.get_by_id',
                  G + 'TlSchemas.get_by_name', G + 'TlSchemas.get_by_class_name'],
             descr='per constructor of the three bundled schema files whose field types the library can express, per flag subset and per '
-                  'length/alternative rotation (bytes and strings of 0,1,2,3,4,252..257,1000,65540 bytes; vectors of 0..2 elements; Bool; '
+                  'length/alternative rotation (bytes and strings of 0,1,2,3,4,252..257,1000,5000 bytes; vectors of 0..2 elements; Bool; '
                   'boxed alternatives; nested objects): serialize(schema, v) == TL encoding (little-endian id and integers, framed and '
                   'padded strings), deserialize(encoding) returns v and consumes exactly all bytes; integers, hashes and byte contents '
                   'symbolic', budget={'seconds': 15, 'paths': 150})
